@@ -310,7 +310,7 @@ distinct = distinct resolution patterns / (history length, key set, sequence, fl
     }
     let n_rand = ctx.tier.pick(10_000, 400_000);
     for i in 0..n_rand {
-        if i % 16 == 1 {
+        if i % 128 == 1 {
             crate::props::poison::run(i as u64);
         }
         let n = rng.urange(0, 32);
